@@ -18,11 +18,12 @@ TRUST_SYS = TRUST + ("MockProvider flavours are the environment (bound to the pr
 CHECKS = {
  "C01": dict(ready=False, engine="sys", design_ref="DESIGN.md 3.6-3.8, 6 (C01), 13",
    text=SYS + "C01: Converged at every quiet report, ReachesQuiet within the step bound, NoEscape, StaysQuiet; families: all two-sided histories "
-        "(conflicting and not) of 2 operations exhaustively, 3-5 by slices/simulation, 2-4 flavours. Design level: SysMC.tla (abstract engine constrained by the contract guards).",
+        "(conflicting and not) of 2 operations exhaustively, 3-5 by slices/simulation, 2-4 flavours; family `mid`: the last user operation is performed INSIDE a sync step, "
+        "right after the k-th provider call (k = 1..4) the engine makes. Design level: SysMC.tla (abstract engine constrained by the contract guards).",
    note=TRUST_SYS, technique="TLA+ spec (Sys/Tree/Gen_Sys/Trace_Sys) + TLC: generated behaviours replayed on the real engine, TLC trace validation of convergence clauses"),
  "C02": dict(ready=True, engine="sys", design_ref="DESIGN.md 3.7, 6 (C02), 13",
    text=SYS + "C02: ghost ledger (written / killed / dropped versions) in Sys.tla; LastCopy at every engine delete/upload, NoLoss and NoInventedContent at "
-        "every quiet report, unreadable (corrupt) copies do not count as copies; conflict-heavy universes, resolver answers that keep data, corrupt-read placements. "
+        "every quiet report, unreadable (corrupt) copies do not count as copies; conflict-heavy universes, resolver answers that keep data, corrupt-read placements, tail schedules in which one side's events are synced for 1 / 16 steps before the other side's arrive. "
         "SysMC.tla shows the guards make NoLoss an invariant for ANY engine.",
    note=TRUST_SYS, technique="TLA+ spec with ghost ledger + TLC model checking of the contract; TLC-generated conflict histories replayed on the real engine; TLC trace validation"),
  "C03": dict(ready=False, engine="sys", design_ref="DESIGN.md 6 (C03), 13",
@@ -70,8 +71,9 @@ CHECKS = {
    category="fault_enumeration"),
  "C11": dict(ready=True, engine="state", design_ref="DESIGN.md 3.4, 6 (C11), 13",
    text="StateInv.tla (FoundByOid, FoundByPath, NoStaleOidSlot, NoStalePathSlot, OneOwnerPerOid, PendingExact) evaluated by TLC on the observed table of the real "
-        "SyncState: after every call of every sequence of raw event tuples / discards (Gen_State.tla, exhaustive for length 2, simulated to 5-7, id-style and "
-        "path-style) and after every engine step of system histories.",
+        "SyncState and SmartSyncState: after every call of every sequence of raw event tuples / discards / forget (Gen_State.tla, exhaustive for length 2, simulated to 5-7, id-style and "
+        "path-style, case-sensitive and case-insensitive sides with names that differ only by case) and after every engine step of system histories (incl. stop/restart and a "
+        "case-variant universe on case-insensitive flavours).",
    note=TRUST + "table read through SyncState's private indexes (_oids, _paths, _changeset_storage, _dirtyset).",
    technique="TLA+ invariants (StateInv.tla) evaluated by TLC on observed states of the real SyncState; TLC-generated event-tuple sequences"),
  "C12": dict(ready=False, engine="sys", design_ref="DESIGN.md 6 (C12), 13",
@@ -81,7 +83,7 @@ CHECKS = {
  "C13": dict(ready=True, engine="paths", design_ref="DESIGN.md 3.1, 6 (C13), 13",
    text="Paths.tla transcribes join/split/normalize_path_separators/normalize_path/is_subpath/replace_path/paths_match/dirname/basename and CloudSync.translate for all 8 "
         "conventions and states the property's 13 laws; TLC checks the laws on the specification for small bounds; TLC enumerates every string <= 4 (thorough 5), pairs, "
-        "triples, translation inputs for all 64 convention pairs and simulated long paths; the real helpers are executed on each input and TLC (Trace_Paths) evaluates every "
+        "triples, translation inputs for all 64 convention pairs, folder arguments in 14 un-normalised spellings (trailing / doubled / alternate separators) and simulated long paths; the real helpers are executed on each input and TLC (Trace_Paths) evaluates every "
         "law on the CODE's results and compares them with the specification operators.",
    note=TRUST + "characters represented by 8 classes; helpers on bare Provider subclasses, translate on real CloudSync objects; folder laws for absolute folders join(f).",
    technique="TLA+ spec (Paths.tla) + TLC model checking of the laws; TLC-enumerated inputs executed on the real helpers; TLC trace validation"),
@@ -91,8 +93,9 @@ CHECKS = {
    note=TRUST_SYS, technique="TLA+ spec + TLC: paired-trace validation (mangled run judged against the prompt run of the same TLC-generated behaviour)"),
  "C15": dict(ready=True, engine="threads", design_ref="DESIGN.md 6 (C15), 13",
    text="Real threads (cs.start()), real time, randomised switch interval: TLC-generated create-only two-sided histories with an application thread calling public methods; "
-        "every call into SyncState.updated is recorded with (thread, call site, field, lock owned); TLC (Trace_Sys) demands LockOwned for every observed site and "
-        "AsExpected / Converged / NoLoss at the end.",
+        "(the on-demand engine too, with a tour of every smart_* method); every call into SyncState.updated and every storage write of a state-tag row is recorded with (thread, "
+        "call site, field, lock owned); the state lock itself is observed through a proxy: StepAtomic = one entry synchronisation / one event application / one on-demand request "
+        "never lets go of the lock and takes it again; TLC (Trace_Sys) demands LockOwned and StepAtomic for every observed site and AsExpected / Converged / NoLoss at the end.",
    note=TRUST + "interleavings are whatever the OS produced (sampled); private attribute writes that bypass SyncState.updated are not observed; a real-time timeout is retried sequentially.",
    technique="TLC trace validation of lock ownership per mutation site and of the end state of threaded runs", category="exploration"),
  "C16": dict(ready=True, engine="provider", design_ref="DESIGN.md 3.2, 6 (C16), 13",
